@@ -39,6 +39,25 @@ class Sampling:
             if b.dominates(x, self.pe[0].bb):
                 self.cond_switch = x
 
+    def initial_mode_call(self):
+        """The call before the loop that produces the initial BenchMode: (Call, Body) or (None, None)."""
+        b = self.body
+        cs = [c for c in b.live_calls() if c.dest["ty"] == "benchmark::BenchMode" and c.bb not in self.loop["body"]]
+        if len(cs) != 1:
+            return None, None
+        return cs[0], self.prog.bodies.get((b.crate, cs[0].callee, -1))
+
+    def local_wrapper(self):
+        """The single-threaded wrapper: the non-closure body (other than the sampling function) that calls it."""
+        b = self.body
+        out = []
+        for x in self.prog.lib_bodies(b.crate):
+            if x.path != b.path and x.kind != "Closure" and "::tests::" not in x.path and any(c.callee == b.path for c in x.live_calls()):
+                # entry points call it too; the wrapper is the one that stores thread_count
+                if any(s["k"] == "assign" and s["p"]["l"] == 1 and place_fields(s["p"]) == ("thread_count",) for bi, si, s in x.stmts()):
+                    out.append(x)
+        return out[0] if len(out) == 1 else None
+
     def cond_rows(self):
         """Rows of the loop condition's decision DAG: list of (decisions{atom_key: bool}, result) with result a bool or
         an atom key.  Atom keys: (op, classA, classB)."""
